@@ -94,6 +94,10 @@ def _main(d):
         demo_pkg = "./" + os.path.relpath(os.path.dirname(demo_dst), REPO)
         names = re.findall(r"^func (Test\w+)\(", src, re.M)
         race = "-race " if "-race" in meta.get("demo_cmd", "") else ""
+        import re as _re
+        mt = _re.search(r"-tags[ =](\S+)", meta.get("demo_cmd", ""))
+        if mt:
+            race += "-tags %s " % mt.group(1)
         demo_cmd = "go test -vet=off -count=1 -timeout 180s %s-run '^(%s)$' %s 2>&1 | tail -15" % (race, "|".join(names), demo_pkg)
         rc, out = sh(demo_cmd, timeout=600)
         res["demo_fails_with_change"] = ("FAIL" in out) or ("panic" in out) or ("fatal error" in out)
